@@ -36,7 +36,9 @@ import (
 type RepoWrite struct {
 	Step     int           `json:"step"`
 	At       time.Duration `json:"at"`
-	Who      string        `json:"who"` // hc | proxy | seed
+	Who      string        `json:"who"`             // hc | proxy | seed
+	Asked    string        `json:"asked,omitempty"` // status the caller wanted to store (Status is what the repository holds afterwards)
+	Err      string        `json:"err,omitempty"`
 	Name     string        `json:"name"`
 	URL      string        `json:"url"`
 	Status   string        `json:"status"`
@@ -73,6 +75,7 @@ type Recorder struct {
 	sim       *Sim
 	mu        sync.Mutex
 	Repo      []RepoWrite
+	RepoLost  []RepoWrite // writes that were refused, or accepted without taking effect
 	Sel       []SelCall
 	Stats     []StatRec
 	Recov     []RepoWrite // recovery callbacks (Name/URL/At/Step used)
@@ -144,13 +147,29 @@ func (r *recRepo) UpdateEndpoint(ctx context.Context, ep *domain.Endpoint) error
 		}
 	}
 	err := r.EndpointRepository.UpdateEndpoint(ctx, ep)
-	if err == nil {
-		r.rec.mu.Lock()
-		r.rec.Repo = append(r.rec.Repo, RepoWrite{Step: r.rec.sim.Steps(), At: r.rec.sim.Now(), Who: r.who, Name: ep.Name, URL: ep.URL.String(),
-			Status: ep.Status.String(), Fails: ep.ConsecutiveFailures, Mult: ep.BackoffMultiplier, NextIn: ep.NextCheckTime.Sub(ep.LastChecked),
-			Routable: ep.Status.IsRoutable(), Prev: prev})
-		r.rec.mu.Unlock()
+	// the log records what the repository holds after the call, not what the caller asked for: a write
+	// that is refused or silently dropped must not look like a state change to the oracles
+	w := RepoWrite{Step: r.rec.sim.Steps(), At: r.rec.sim.Now(), Who: r.who, Name: ep.Name, URL: ep.URL.String(),
+		Status: ep.Status.String(), Fails: ep.ConsecutiveFailures, Mult: ep.BackoffMultiplier, NextIn: ep.NextCheckTime.Sub(ep.LastChecked),
+		Routable: ep.Status.IsRoutable(), Prev: prev, Asked: ep.Status.String()}
+	if all, gerr := r.EndpointRepository.GetAll(context.Background()); gerr == nil {
+		for _, e := range all {
+			if e.URLString == ep.URLString || (e.URL != nil && ep.URL != nil && e.URL.String() == ep.URL.String()) {
+				w.Status, w.Fails, w.Mult, w.NextIn, w.Routable = e.Status.String(), e.ConsecutiveFailures, e.BackoffMultiplier, e.NextCheckTime.Sub(e.LastChecked), e.Status.IsRoutable()
+			}
+		}
 	}
+	if err != nil {
+		w.Err = err.Error()
+	}
+	r.rec.mu.Lock()
+	if err == nil {
+		r.rec.Repo = append(r.rec.Repo, w)
+	}
+	if err != nil || w.Status != w.Asked {
+		r.rec.RepoLost = append(r.rec.RepoLost, w)
+	}
+	r.rec.mu.Unlock()
 	return err
 }
 
